@@ -383,10 +383,14 @@ type ReplaceMap struct {
 }
 
 func (m ReplaceMap) Get(key string) (Value, bool) {
-	if e, ok := m.rep.Get(key); ok {
-		return e, true
+	e, ok := m.orig.Get(key)
+	if !ok {
+		return nil, false
 	}
-	return m.orig.Get(key)
+	if r, ok := m.rep.Get(key); ok {
+		return r, true
+	}
+	return e, true
 }
 
 func (m ReplaceMap) Iter(yield func(key string, v Value) bool) {
